@@ -252,7 +252,8 @@ func (t *Tokenizer) tokenizeBuffer(buf []byte, last bool) {
 				if digitMap[b] != numDigit {
 					break
 				}
-				if gen.BigLimit <= t.num.I {
+				if gen.BigLimit < t.num.I || (gen.BigLimit == t.num.I && '7' < b) {
+					// The next digit does not fit in an int64.
 					t.num.FillBig()
 					t.num.AddDigit(b)
 					break
